@@ -93,6 +93,16 @@ def rule_key(chain, rule):
             int(rule.dst_port), rule.new_ip, int(rule.new_port))
 
 
+class _Lease:
+    """Watchdog lease handed to RuleMgr.garbage_collect."""
+
+    def __init__(self, seam):
+        self._seam = seam
+
+    def heartbeat(self):
+        self._seam.checkpoint('heartbeat')
+
+
 class World:
     """Real managers + service on a scratch tree, fakes, reference maps."""
 
@@ -113,7 +123,8 @@ class World:
                 'nonowner_release_attempts', 'owner_releases',
                 'second_owner_create_refused', 'same_owner_recreate',
                 'spec_recreate_refused', 'gc_with_live_and_dead',
-                'gc_reclaimed', 'unlink_all_removed',
+                'gc_reclaimed', 'gc_passes_preempted', 'gc_open_entries',
+                'gc_entry_taken_over_by_newcomer', 'unlink_all_removed',
                 'unlink_all_skipped_foreign', 'net_requests',
                 'net_replies_ok', 'net_replies_error',
                 'net_same_ip_after_restart', 'svc_restarts',
@@ -175,6 +186,8 @@ class World:
         self.ever_ips = {}
         self.dead_ports = set()
         self.faulted = False   # a kill or an injected failure has happened
+        self.gc_pass = None    # bookkeeping of a GC pass in progress
+        self.in_nested = False
         self.leaky = set()     # requests that held two ips (after a fault)
         self.unprocessed_del = set()   # deletions the service has not seen
         self.raced = set()     # ids requested again before that (provenance)
@@ -232,6 +245,9 @@ class World:
             return
         os.makedirs(os.path.join(self.apps_dir, name, 'data'))
         self.owners[name] = True
+        if self.gc_pass is not None:
+            self.gc_pass['added'][name] = self.gc_pass['tick']
+            self.gc_pass['touched'].add(name)
 
     def op_owner_del(self, op):
         name = op['name']
@@ -239,6 +255,9 @@ class World:
             return
         shutil.rmtree(os.path.join(self.apps_dir, name))
         del self.owners[name]
+        if self.gc_pass is not None:
+            self.gc_pass['added'].pop(name, None)
+            self.gc_pass['touched'].add(name)
         self.req.pop(name, None)
         self.faults['owner_vanished'] = \
             self.faults.get('owner_vanished', 0) + 1
@@ -333,6 +352,150 @@ class World:
             self.log.ev('vip_free', owner, ip, 'OSError', err.errno)
         self._vip_check(op, exp, cls, by=owner, pre=pre)
 
+    # ------------------------------------------------------------------
+    # garbage collection passes, pre-emptible between two entries
+    NESTED = {'vip': ('owner_add', 'owner_del', 'vip_alloc', 'vip_free'),
+              'rule': ('owner_add', 'owner_del', 'rule_create',
+                       'rule_unlink'),
+              'endpoint': ('owner_add', 'owner_del', 'spec_create',
+                           'spec_unlink', 'spec_unlink_all')}
+
+    def _gc_tables(self, kind):
+        if kind == 'vip':
+            return ('vip_ref', lambda: netcheck.read_links(self.vipd_dir),
+                    self.is_live)
+        if kind == 'rule':
+            return 'rule_ref', self._rules_actual, self.is_live
+        return 'spec_ref', self._specs_actual, self.spec_owner_live
+
+    def _gc_pass(self, kind, op, call):
+        """One real GC pass.  `op['during']` = [{'at': k, 'ops': [...]}]:
+        complete operations of other owners executed at the k-th pre-emption
+        point of the pass.
+
+        Oracle (C14, "reclaims exactly the entries whose owner no longer
+        exists"), stated against liveness at the moment an entry is decided:
+        an entry whose holder has been alive ever since it holds the entry
+        (or since the pass began) must survive; an entry that was there when
+        the pass began, kept its holder, and whose holder was dead then and
+        never appeared during the pass must be gone when the pass ends;
+        everything else (the holder's liveness changed while the pass ran,
+        the entry appeared during the pass for a dead holder) is open.
+        """
+        attr, _actual, live = self._gc_tables(kind)
+        pre = dict(getattr(self, attr))
+        self._gc_probe(pre, live)
+        during = {}
+        for item in op.get('during') or ():
+            during.setdefault(item['at'], []).extend(item['ops'])
+        self.gc_pass = {
+            'kind': kind, 'tick': 0, 'born': {}, 'added': {}, 'pre': pre,
+            'touched': set(),
+            'dead_at_start': {o for o in pre.values() if not live(o)},
+            'during': during, 'op': op['op'], 'ran': 0}
+        self.seam.on_checkpoint = self._gc_checkpoint
+        try:
+            call()
+        finally:
+            self.seam.on_checkpoint = None
+            if self.violation is None:
+                self._gc_sync(final=True)
+            if self.gc_pass['ran']:
+                self.probes['gc_passes_preempted'] += 1
+                self.nontrivial += 1
+            self.gc_pass = None
+
+    def _gc_must_survive(self, key, holder):
+        gcp = self.gc_pass
+        _attr, _actual, live = self._gc_tables(gcp['kind'])
+        if not live(holder):
+            return False
+        # alive now; dead at some point during the pass only if it was added
+        # during the pass (a removal forgets the addition)
+        last_dead = gcp['added'].get(holder, -1)
+        if holder in gcp['dead_at_start'] and holder not in gcp['added']:
+            # host-service owners (proc/<pid>) are not added by nested ops
+            return False
+        return last_dead < gcp['born'].get(key, 0)
+
+    def _gc_must_go(self, key, holder):
+        gcp = self.gc_pass
+        return (key not in gcp['born'] and gcp['pre'].get(key) == holder and
+                holder in gcp['dead_at_start'] and
+                holder not in gcp['touched'])
+
+    def _gc_sync(self, final):
+        """Bring the reference up to what the pass has decided so far."""
+        gcp = self.gc_pass
+        kind = gcp['kind']
+        attr, actual_fn, _live = self._gc_tables(kind)
+        ref = getattr(self, attr)
+        actual = actual_fn()
+        for key in sorted(set(ref) | set(actual), key=repr):
+            if key not in actual:
+                holder = ref[key]
+                if self._gc_must_survive(key, holder):
+                    self.fail('C14:gc-removed-live:%s' % kind,
+                              'garbage collection removed %s %r whose owner '
+                              '%r exists (and has existed ever since it '
+                              'holds the entry)%s' % (
+                                  kind, key, holder,
+                                  ' - pass pre-empted %d time(s)' % gcp['ran']
+                                  if gcp['ran'] else ''))
+                    return
+                if not self._gc_must_go(key, holder):
+                    self.probes['gc_open_entries'] += 1
+                del ref[key]
+            elif key not in ref:
+                self.fail('C14:unexpected-entry:%s:%s' % (kind, gcp['op']),
+                          '%s %r (owner %r) appeared during %s' % (
+                              kind, key, actual[key], gcp['op']))
+                return
+            elif actual[key] != ref[key]:
+                self.fail('C14:%s-two-owners' % kind,
+                          '%s %r is held by %r but the directory says %r '
+                          'after %s' % (kind, key, ref[key], actual[key],
+                                        gcp['op']))
+                return
+            elif final and self._gc_must_go(key, ref[key]):
+                self.fail('C14:gc-kept-dead:%s' % kind,
+                          'garbage collection kept %s %r whose owner %r does '
+                          'not exist' % (kind, key, ref[key]))
+                return
+            elif final and not self._gc_must_survive(key, ref[key]):
+                self.probes['gc_open_entries'] += 1
+
+    def _gc_checkpoint(self, count, _kind):
+        gcp = self.gc_pass
+        if gcp is None or self.in_nested or self.violation is not None:
+            return
+        nested = gcp['during'].get(count)
+        if not nested:
+            return
+        self._gc_sync(final=False)
+        attr = self._gc_tables(gcp['kind'])[0]
+        self.in_nested = True
+        try:
+            for nop in nested:
+                if self.violation is not None:
+                    break
+                if nop.get('op') not in self.NESTED[gcp['kind']]:
+                    continue
+                gcp['tick'] += 1
+                gcp['ran'] += 1
+                before = dict(getattr(self, attr))
+                self.log.ev('during', count, nop)
+                getattr(self, 'op_' + nop['op'])(nop)
+                after = getattr(self, attr)
+                for key, holder in after.items():
+                    if before.get(key) != holder:
+                        gcp['born'][key] = gcp['tick']
+                        if key in gcp['pre'] and holder in gcp['added']:
+                            self.probes['gc_entry_taken_over_by_newcomer'] \
+                                += 1
+        finally:
+            self.in_nested = False
+
     def _gc_probe(self, ref, live):
         alive = sum(1 for o in ref.values() if live(o))
         dead = len(ref) - alive
@@ -342,11 +505,9 @@ class World:
         self.probes['gc_reclaimed'] += dead
 
     def op_vip_gc(self, op):
-        pre = dict(self.vip_ref)
-        exp = {ip: o for ip, o in pre.items() if self.is_live(o)}
-        self._gc_probe(pre, self.is_live)
-        self.vipmgr.garbage_collect()
-        self._vip_check(op, exp, 'gc', pre=pre)
+        self._gc_pass('vip', op, self.vipmgr.garbage_collect)
+        if self.violation is None:
+            self._vip_check(op, dict(self.vip_ref), 'other')
 
     def op_vip_init(self, op):
         pre = dict(self.vip_ref)
@@ -432,11 +593,14 @@ class World:
         self._rule_check(op, exp, cls, by=owner, pre=pre)
 
     def op_rule_gc(self, op):
-        pre = dict(self.rule_ref)
-        exp = {k: o for k, o in pre.items() if self.is_live(o)}
-        self._gc_probe(pre, self.is_live)
-        self.tm_env.rules.garbage_collect()
-        self._rule_check(op, exp, 'gc', pre=pre)
+        # the firewall watcher passes its watchdog lease: garbage_collect
+        # calls lease.heartbeat() between two rules once `watchdog_heartbeat`
+        # seconds have passed - the pass can be pre-empted there
+        lease = _Lease(self.seam)
+        self._gc_pass('rule', op, lambda: self.tm_env.rules.garbage_collect(
+            watchdog_lease=lease, watchdog_heartbeat=1e-9))
+        if self.violation is None:
+            self._rule_check(op, dict(self.rule_ref), 'other')
 
     def op_rule_init(self, op):
         pre = dict(self.rule_ref)
@@ -562,11 +726,10 @@ class World:
         self._spec_check(op, exp, 'release-nonowner', by=owner, pre=pre)
 
     def op_spec_gc(self, op):
-        pre = dict(self.spec_ref)
-        exp = {k: o for k, o in pre.items() if self.spec_owner_live(o)}
-        self._gc_probe(pre, self.spec_owner_live)
-        endpoints.garbage_collect(self.tm_env.endpoints_dir)
-        self._spec_check(op, exp, 'gc', pre=pre)
+        self._gc_pass('endpoint', op, lambda: endpoints.garbage_collect(
+            self.tm_env.endpoints_dir))
+        if self.violation is None:
+            self._spec_check(op, dict(self.spec_ref), 'other')
 
     def op_spec_init(self, op):
         pre = dict(self.spec_ref)
@@ -1227,7 +1390,7 @@ class Generator:
         return {'owner': owner, 'ip': ip}
 
     def g_vip_gc(self, world):
-        return {'ord': self.order()}
+        return self._with_during(world, 'vip', {'ord': self.order()})
 
     def g_vip_init(self, world):
         return {'ord': self.order()}
@@ -1268,6 +1431,82 @@ class Generator:
             chain, spec = self._rule_spec()
         return {'owner': owner, 'chain': chain, 'rule': spec}
 
+    def _with_during(self, world, kind, op):
+        """Attach operations of other owners to run inside the GC pass,
+        biased to: a newcomer takes an entry that exists / was just
+        released (by its dead or live holder)."""
+        rng = self.rng
+        if rng.random() >= self.config.get('p_during', 0.0):
+            return op
+        if kind == 'vip':
+            ref = dict(world.vip_ref)
+        elif kind == 'rule':
+            ref = dict(world.rule_ref)
+        else:
+            ref = {k: o for k, o in world.spec_ref.items() if len(k) == 6 and
+                   not k[0].startswith(HS_HOST)}
+        if not ref:
+            return op
+        keys = sorted(ref, key=repr)
+        nested = []
+        r = rng.random()
+        if r < 0.65:
+            taker = self._new_name()[2]
+            nested.append({'op': 'owner_add', 'name': taker})
+        else:
+            taker = self._owner(world)
+            if taker is None:
+                return op
+        holders = sorted(set(ref.values()))
+        if rng.random() < 0.25:
+            alive = [o for o in holders if o in world.owners]
+            if alive:
+                nested.append({'op': 'owner_del', 'name': rng.choice(alive)})
+        if rng.random() < 0.2:
+            dead = [o for o in holders if o not in world.owners and
+                    o.count('-') >= 2]
+            if dead:
+                nested.append({'op': 'owner_add', 'name': rng.choice(dead)})
+        rng.shuffle(keys)
+        for key in keys[:rng.randint(1, 3)]:
+            holder = ref[key]
+            release = rng.random() < 0.85
+            if kind == 'vip':
+                if release:
+                    nested.append({'op': 'vip_free', 'owner': holder,
+                                   'ip': key})
+                nested.append({'op': 'vip_alloc', 'owner': taker, 'ip': key})
+            elif kind == 'rule':
+                chain, spec = self._rule_of_key(key)
+                if release:
+                    nested.append({'op': 'rule_unlink', 'owner': holder,
+                                   'chain': chain, 'rule': dict(spec)})
+                nested.append({'op': 'rule_create', 'owner': taker,
+                               'chain': chain, 'rule': dict(spec)})
+            else:
+                spec = {'app': key[0], 'proto': key[1], 'ep': key[2],
+                        'rport': int(key[3]), 'pid': int(key[4]),
+                        'port': int(key[5])}
+                if release:
+                    nested.append({'op': 'spec_unlink', 'owner': holder,
+                                   'spec': dict(spec)})
+                nested.append({'op': 'spec_create', 'owner': taker,
+                               'spec': dict(spec)})
+        op['during'] = [{'at': rng.randint(1, max(1, min(len(ref), 3))),
+                         'ops': nested}]
+        return op
+
+    @staticmethod
+    def _rule_of_key(key):
+        if key[1] == 'pt':
+            return key[0], {'t': 'pt', 'src_ip': key[2], 'dst_ip': key[3]}
+        return key[0], {'t': key[1], 'proto': key[2],
+                        'src_ip': None if key[3] == '*' else key[3],
+                        'src_port': key[4] or None,
+                        'dst_ip': None if key[5] == '*' else key[5],
+                        'dst_port': key[6] or None,
+                        'new_ip': key[7], 'new_port': key[8]}
+
     def _held_rule(self, world):
         # reconstruct (chain, spec) of a held rule from its key
         key = self.rng.choice(sorted(world.rule_ref, key=repr))
@@ -1299,7 +1538,7 @@ class Generator:
         return {'owner': owner, 'chain': chain, 'rule': spec}
 
     def g_rule_gc(self, world):
-        return {'ord': self.order()}
+        return self._with_during(world, 'rule', {'ord': self.order()})
 
     def g_rule_init(self, world):
         return {'ord': self.order()}
@@ -1371,7 +1610,7 @@ class Generator:
         return op
 
     def g_spec_gc(self, world):
-        return {'ord': self.order()}
+        return self._with_during(world, 'endpoint', {'ord': self.order()})
 
     def g_spec_init(self, world):
         return {'ord': self.order()}
@@ -1573,6 +1812,7 @@ def make_config(prop, tier, rng):
         'max_ephemeral': rng.choice([0, 1, 3, 3]),
         'hot_ports': rng.choice([2, 4, 6, 12]),
         'permute': rng.random() < 0.8,
+        'p_during': rng.choice([0.0, 0.3, 0.6]),
         'p_svc_kill': rng.choice([0.0, 0.05, 0.15]),
         'p_cmd_fail': rng.choice([0.0, 0.05, 0.15]),
         'p_start_kill': rng.choice([0.0, 0.15, 0.35]),
@@ -1631,6 +1871,13 @@ class NetSim(enginemod.Engine):
         'plugin_manager.load(firewall plugin): raises KeyError (the '
         'entry-point section is empty in this tree)',
         'os.getpid in _run: the container pid carried by the op',
+        'second scheduling granularity (C14): a garbage-collection pass can '
+        'be pre-empted between two entries - RuleMgr.garbage_collect at the '
+        'watchdog_lease.heartbeat() call it makes itself (lease supplied by '
+        'the harness, heartbeat interval 1e-9 s so that it fires after every '
+        'rule), VipMgr.garbage_collect and endpoints.garbage_collect before '
+        'each entry\'s os.stat(); the op carries the complete operations of '
+        'other owners that run there ("during": [{"at": k, "ops": [...]}])',
         'clock (virtual); directory listing order (sorted, then permuted by '
         'the op); tempfile.mktemp in _base_service (counter)',
     )
@@ -1638,7 +1885,8 @@ class NetSim(enginemod.Engine):
     RULES = {
         'C14': 'non-trivial: a release attempted by a non-owner on a held '
                'entry, a create attempted on an entry held by another owner, '
-               'a garbage collection with both live and dead owners present, '
+               'a garbage collection with both live and dead owners present or '
+               'pre-empted by operations of other owners, '
                'or a service restart with live requests',
         'C16': 'non-trivial: a finish that removed registrations while '
                'another container had registrations on the host',
@@ -1656,9 +1904,13 @@ class NetSim(enginemod.Engine):
 
     def assumptions(self, prop):
         out = [
-            'op-level interleaving: one operation of one owner at a time '
-            '(the syscall-level pre-emption tier of DESIGN 2.4 is not '
-            'implemented)',
+            'interleaving: one operation of one owner at a time, except that '
+            'a GC pass (rule, vip, endpoint) can be pre-empted between two '
+            'entries by complete owner_add/owner_del/create/release '
+            'operations of other owners.  NOT interleaved: the window '
+            'between stat() and unlink() of one entry inside a GC pass, the '
+            'inside of any non-GC operation, NetworkResourceService'
+            '.synchronize and _check_requests, two concurrent GC passes',
             'a kill lands before a mutating file-system call or an external '
             'command of the op; tmpfs keeps what was done before it',
             'virtual clock advances at least 1 s per op',
@@ -1674,6 +1926,13 @@ class NetSim(enginemod.Engine):
                 'told an IP',
                 'ownerless unlink_all (host-service pattern) is an '
                 'administrative release and expected to take effect',
+                'GC oracle under pre-emption: an entry whose holder has '
+                'existed ever since it holds the entry (or since the pass '
+                'began) must survive; an entry present when the pass began, '
+                'with the same holder, whose holder did not exist then and '
+                'never appeared during the pass must be gone at its end; '
+                'entries whose holder appeared or vanished during the pass '
+                'are open',
             ]
         else:
             out += [
@@ -1794,9 +2053,14 @@ class NetSim(enginemod.Engine):
         seam = world.seam
         seam_os = fsseam.SeamOS(seam)
         seam_glob = fsseam.SeamGlob(seam)
-        for mod in (vipfile, rulefile, endpoints, _base_service,
-                    _linux_base_service, treadmill.fs):
+        for mod in (rulefile, _base_service, _linux_base_service,
+                    treadmill.fs):
             patches.set(mod, 'os', seam_os)
+        # scan loops without a callback of their own (VipMgr.garbage_collect,
+        # endpoints.garbage_collect): pre-emptible before each entry's stat()
+        scan_os = fsseam.SeamOS(seam, stat_checkpoint=True)
+        patches.set(vipfile, 'os', scan_os)
+        patches.set(endpoints, 'os', scan_os)
         patches.set(endpoints, 'glob', seam_glob)
         patches.set(_base_service, 'glob', seam_glob)
         patches.set(_base_service, 'tempfile', fsseam.CountingTempfile())
